@@ -10,6 +10,7 @@ add("C18", "checks/c18_errquery.c", ["default-asan", "heap-asan", "default-plain
     "around the end of the 1024-byte info heap at a chosen offset: at the cut, at a quote, anywhere). distinct_nontrivial counts case keys "
     "(block, length x variant, (code,total), first (code,text) of each random batch), a lower bound",
     exhaustive=dict(quick=False, thorough=False),
+    rule_more="user error list with quotes and descriptions of 253..300 characters (flavour usererr); wrap position x quote position enumeration; errors pushed from the error(0) / write callback while the only entry is being reported; flavour optmin; decoy context",
     technique="runtime monitor: the real SYST:ERR? handler is driven through SCPI_Input on a capture interface; the captured bytes are read by an independent IEEE 488.2 "
               "string-response reader and compared with the longest prefix of description;text whose escaped form fits 255 characters (computed from the statement); "
               "own description table expanded from LIST_OF_ERRORS; exact-size source buffers under ASan+UBSan",
